@@ -565,9 +565,116 @@ Definition user_names_ok (e : entity) : bool :=
   && nodup_bytes (sp_service_user e) && disjoint_bytes (sp_service_user e) (sp_service_generated e)
   && nodup_bytes (sp_topic_user e) && disjoint_bytes (sp_topic_user e) (sp_topic_generated e).
 
+(* ==== round 4: the List method and the field types of Keys / Data ================================= *)
+(* the keys List is scoped by: key-typed keys flagged shardKey - primary or not *)
+Definition key_in_list (k : ekey) : bool := key_typed k && k_shard k.
+Definition shard_key_names (e : entity) : list bytes :=
+  map (fun k => to_snake (key_name k)) (filter key_in_list (e_keys e)).
+
+(* the path parameters of List are the shard keys in declaration order *)
+Definition spec_list_path (e : entity) (cs : list component) : Prop :=
+  forall s g l v, In s (svcs_in cs 1) -> is_query_svc s = true -> sv_methods s = [g; l; v] ->
+    rule_params (mt_path l) = shard_key_names e.
+
+
+(* ---- the List request: the shard keys, then page and query; the key fields are the very fields of
+   the Get and Events requests (same type, key options, required / optional flags) --------------- *)
+Definition spec_list_request (e : entity) (cs : list component) : Prop :=
+  forall s g l v, In s (svcs_in cs 1) -> is_query_svc s = true -> sv_methods s = [g; l; v] ->
+    exists mg ml mv,
+      has_msg cs 1 mg /\ m_name mg = mt_in g /\ has_msg cs 1 ml /\ m_name ml = mt_in l
+      /\ has_msg cs 1 mv /\ m_name mv = mt_in v
+      /\ map f_json (m_fields ml)
+         = map key_name (filter key_in_list (e_keys e)) ++ [bs "page"; bs "query"]
+      /\ (forall f, In f (firstn (length (shard_key_names e)) (m_fields ml)) ->
+            In f (m_fields mg) /\ In f (m_fields mv)).
+
+
+(* the type the schema language gives an item: a scalar / well-known message / reference by name *)
+Definition sp_item_type (i : ikind) : otype :=
+  match i with
+  | IScalar pt k => TScalar pt k
+  | IExt tn k => TExt tn k
+  | IObject n => TObject [] n
+  | IOneof n => TOneof [] n
+  | IEnum n => TEnum [] n
+  end.
+(* an inline (anonymous) schema becomes a type nested in the message, named Camel(field name);
+   as the value of a map it sits inside the map type *)
+Definition sp_inline_type (container : N) (field : bytes) (k : N) : otype :=
+  if container =? 2 then TMap (TNested (to_camel field) k) else TNested (to_camel field) k.
+Definition sp_declared_type (u : ufield) : otype :=
+  match uf_kind u with
+  | KScalar pt k => TScalar pt k
+  | KObject n => TObject [] n
+  | KOneof n => TOneof [] n
+  | KEnum n => TEnum [] n
+  | KKey _ _ _ => TScalar 9 (bs "key")          (* a string carrying the key annotation *)
+  | KExt tn k => TExt tn k
+  | KArray i => sp_item_type i
+  | KMap v => TMap (sp_item_type v)
+  | KInlineObject _ => sp_inline_type (uf_container u) (uf_name u) 0
+  | KInlineOneof _ => sp_inline_type (uf_container u) (uf_name u) 1
+  | KInlineEnum _ => sp_inline_type (uf_container u) (uf_name u) 2
+  | KInlineTree k _ => sp_inline_type (uf_container u) (uf_name u) k
+  end.
+Definition sp_repeated (u : ufield) : bool :=
+  match uf_kind u with
+  | KArray _ | KMap _ => true
+  | KInlineObject _ | KInlineOneof _ | KInlineEnum _ | KInlineTree _ _ => negb (uf_container u =? 0)
+  | _ => false
+  end.
+Definition sp_key_flags (u : ufield) : bool * option bytes * option (bytes * bytes) :=
+  match uf_kind u with
+  | KKey p fo te => (p, te, fo)
+  | _ => (false, None, None)
+  end.
+
+(* a property of a generated message IS the declared field: name, type, repeated, key flags
+   (primary / tenant / foreign key), never flattened *)
+Definition field_as_declared (u : ufield) (f : ofield) : Prop :=
+  f_json f = uf_name u /\ f_type f = sp_declared_type u /\ f_repeated f = sp_repeated u
+  /\ (f_primary f, f_tenant f, f_foreign f) = sp_key_flags u /\ f_flatten f = false.
+
+Definition spec_field_types (e : entity) (cs : list component) : Prop :=
+  exists mk md,
+    has_msg cs 0 mk /\ m_name mk = sp_name e "Keys" /\ has_msg cs 0 md /\ m_name md = sp_name e "Data"
+    /\ Forall2 (fun k f => field_as_declared (k_def k) f) (e_keys e) (m_fields mk)
+    /\ Forall2 field_as_declared (e_data e) (m_fields md).
+
+
+(* the same for the members: the nested message of every event, the request and response message of
+   every command method, the upsert message of every summary (after the upsert metadata), the objects
+   and oneofs declared in the entity block hold the declared fields - name, type, repeated, key flags - in declaration order *)
+Definition spec_member_field_types (e : entity) (cs : list component) : Prop :=
+  (exists m, has_msg cs 0 m /\ m_name m = sp_name e "EventType"
+     /\ Forall2 (fun ev n => fst n = ev_name ev /\ Forall2 field_as_declared (ev_fields ev) (snd n))
+                (e_events e) (m_nested m))
+  /\ (forall c md, In c (e_commands e) -> In md (c_methods c) ->
+        (exists m, has_msg cs 1 m /\ m_name m = md_name md ++ bs "Request"
+                   /\ Forall2 field_as_declared (md_request md) (m_fields m))
+        /\ (forall r, md_response md = Some r ->
+              exists m, has_msg cs 1 m /\ m_name m = md_name md ++ bs "Response"
+                        /\ Forall2 field_as_declared r (m_fields m)))
+  /\ (forall s, In s (e_summaries e) ->
+        exists m up, has_msg cs 2 m /\ m_name m = sp_summary_name e s ++ bs "Message"
+                     /\ Forall2 field_as_declared (s_fields s) (tl (m_fields m)) /\ hd_error (m_fields m) = Some up
+                     /\ f_json up = bs "upsert")
+  (* the objects and oneofs declared in the entity block: a message of that name with the declared fields *)
+  /\ (forall s, In s (e_schemas e) ->
+        match s with
+        | SObject n fs => exists m, has_msg cs 0 m /\ m_name m = n /\ m_oneof m = false
+                                    /\ Forall2 field_as_declared fs (m_fields m)
+        | SOneof n fs => exists m, has_msg cs 0 m /\ m_name m = n /\ m_oneof m = true
+                                   /\ Forall2 field_as_declared fs (m_fields m)
+        | SEnum _ _ => True
+        end).
+
 (* THE SPECIFICATION, all clauses *)
 Definition C17_spec_all (e : entity) (cs : list component) : Prop :=
-  C17_spec e cs /\ spec_names e cs /\ spec_query_settings e cs.
+  C17_spec e cs /\ spec_names e cs /\ spec_query_settings e cs
+  /\ spec_list_path e cs /\ spec_list_request e cs /\ spec_field_types e cs
+  /\ spec_member_field_types e cs.
 
 Definition in_quantifier (e : entity) : bool :=
   (* the options of one enum - the statuses, the options of an enum of the block or of an inline enum -
